@@ -307,6 +307,17 @@ class Program:
                     trees[name] = ast.parse(text)
                 except SyntaxError as e:
                     raise AnalysisError('cannot parse %s: %s' % (rel, e))
+            # step M: memo cells are analysed on the raw trees (E14) and then eliminated - the program is read as if every lookup missed
+            self.memo = None
+            try:
+                from . import memo as _memo
+                mlogs, self.memo = _memo.eliminate(trees, sources)
+                for name, extra in mlogs.items():
+                    logs[name] = logs.get(name, []) + extra
+            except Exception as e:                      # pragma: no cover
+                logs.setdefault('yatiml', []).append('memo elimination skipped (%r)' % (e,))
+                trees = {name: ast.parse(text) for name, text in sources.items()}
+            for name, text in sources.items():
                 inline.PROTECTED[id(trees[name])] = set()
                 try:
                     # step K: constants (own and imported from other yatiml modules) are folded before anything is compared
@@ -316,7 +327,7 @@ class Program:
                     trees[name] = ast.parse(text)
                     inline.PROTECTED[id(trees[name])] = set()
                 try:
-                    logs[name] = inline.restore_renamed(trees[name], name)
+                    logs[name] = logs.get(name, []) + inline.restore_renamed(trees[name], name)
                     logs[name] += inline.restore_renamed_attributes(trees[name], name)
                 except Exception as e:                  # pragma: no cover
                     trees[name] = ast.parse(text)
